@@ -690,6 +690,7 @@ namespace chaiscript {
               while (m_position.has_more() && char_in_alphabet(*m_position, detail::bin_alphabet)) {
                 ++m_position;
               }
+              IntSuffix_();
               return true;
             } else {
               --m_position;
